@@ -306,6 +306,29 @@ std_lum_q = c_array(jcp, "std_luminance_quant_tbl", "jcparam.c")
 jsh = strip_comments(rd("jstdhuff.c"))
 std_dc_bits = c_array(jsh, "bits_dc_luminance", "jstdhuff.c"); std_dc_vals = c_array(jsh, "val_dc_luminance", "jstdhuff.c")
 std_ac_bits = c_array(jsh, "bits_ac_luminance", "jstdhuff.c"); std_ac_vals = c_array(jsh, "val_ac_luminance", "jstdhuff.c")
+std_chr_q = c_array(jcp, "std_chrominance_quant_tbl", "jcparam.c")
+std_dcc_bits = c_array(jsh, "bits_dc_chrominance", "jstdhuff.c"); std_dcc_vals = c_array(jsh, "val_dc_chrominance", "jstdhuff.c")
+std_acc_bits = c_array(jsh, "bits_ac_chrominance", "jstdhuff.c"); std_acc_vals = c_array(jsh, "val_ac_chrominance", "jstdhuff.c")
+# jcapimin.c: the state tests of jpeg_write_marker / jpeg_write_m_header / jpeg_write_tables, jcmarker.c write_marker_header
+jcam2 = strip_comments(rd("jcapimin.c"))
+wm_test = (r"if \(cinfo->next_scanline != 0 \|\|\s*\(cinfo->global_state != CSTATE_SCANNING &&\s*cinfo->global_state != CSTATE_RAW_OK &&\s*"
+           r"cinfo->global_state != CSTATE_WRCOEFS\)\)\s*ERREXIT1\(cinfo, JERR_BAD_STATE, cinfo->global_state\);")
+if len(re.findall(wm_test, jcam2)) != 2:
+    die("jcapimin.c: state test of jpeg_write_marker / jpeg_write_m_header not found twice")
+if not re.search(r"jpeg_write_tables\(j_compress_ptr cinfo\)\s*\{\s*if \(cinfo->global_state != CSTATE_START\)\s*ERREXIT1\(cinfo, JERR_BAD_STATE, cinfo->global_state\);"
+                 r".*?jinit_marker_writer\(cinfo\);\s*\(\*cinfo->marker->write_tables_only\) \(cinfo\);", jcam2, re.S):
+    die("jcapimin.c: jpeg_write_tables no longer has the modelled form")
+m = re.search(r"if \(datalen > \(unsigned int\)(\d+)\)\s*ERREXIT\(cinfo, JERR_BAD_LENGTH\);\s*emit_marker\(cinfo, \(JPEG_MARKER\)marker\);\s*emit_2bytes\(cinfo, \(int\)\(datalen \+ 2\)\);", jcmk)
+if not m:
+    die("jcmarker.c: write_marker_header no longer has the modelled form")
+consts["MARKER_MAX_DATA"] = int(m.group(1))
+if not re.search(r"emit_marker\(cinfo, M_SOI\);\s*for \(i = 0; i < NUM_QUANT_TBLS; i\+\+\) \{\s*if \(cinfo->quant_tbl_ptrs\[i\] != NULL\)\s*\(void\)emit_dqt\(cinfo, i\);\s*\}\s*"
+                 r"if \(!cinfo->arith_code\) \{\s*for \(i = 0; i < NUM_HUFF_TBLS; i\+\+\) \{\s*if \(cinfo->dc_huff_tbl_ptrs\[i\] != NULL\)\s*emit_dht\(cinfo, i, FALSE\);\s*"
+                 r"if \(cinfo->ac_huff_tbl_ptrs\[i\] != NULL\)\s*emit_dht\(cinfo, i, TRUE\);\s*\}\s*\}\s*emit_marker\(cinfo, M_EOI\);", jcmk):
+    die("jcmarker.c: write_tables_only no longer has the modelled form")
+jcl = strip_comments(rd("jclossls.c"))
+if not re.search(r"if \(cinfo->restart_interval % cinfo->MCUs_per_row != 0\)\s*ERREXIT2\(cinfo, JERR_BAD_RESTART,", jcl):
+    die("jclossls.c: restart interval test of start_pass_lossless not found")
 if len(std_lum_q) != 64 or len(std_dc_bits) != 17 or len(std_ac_bits) != 17:
     die("std table sizes changed")
 m = re.search(r"if \(quality < 50\)\s*quality = 5000 / quality;\s*else\s*quality = 200 - quality \* 2;", jcp)
@@ -455,7 +478,7 @@ for k in ["DCTSIZE", "DCTSIZE2", "MAX_COMPONENTS", "MAX_COMPS_IN_SCAN", "C_MAX_B
           "MAX_COEF_BITS_ADD", "DC_EXTRA_BITS", "AHAL_PREC", "MAX_AH_AL_HI", "MAX_AH_AL_LO", "LOSSLESS_PREC_MIN", "LOSSLESS_PREC_MAX",
           "LOSSY_PREC_A", "LOSSY_PREC_B", "RESTART_MAX", "PSV_MIN", "PSV_MAX", "QUANT_MIN", "QUANT_MAX", "QUANT_BASELINE_MAX",
           "QUALITY_MIN", "QUALITY_MAX", "SP_YCC_NCOMPS", "SP_YCC_NSCANS", "SP_BIG_MUL", "SP_ADD", "SP_MUL", "SP_SIZE_RULE",
-          "SP_ALLOC_GUARD", "SP_MIN_SLOTS", "DRI_RULE", "RAW_ADVANCE", "DQT_INDEX_CHECK", "HUFF_TBLNO_CHECK_FIRST", "DIVISOR_CLAMP", "DIVISOR_CLAMPED_EVERYWHERE", "ZERO_QUANT_REJECTED",
+          "SP_ALLOC_GUARD", "SP_MIN_SLOTS", "DRI_RULE", "RAW_ADVANCE", "MARKER_MAX_DATA", "DQT_INDEX_CHECK", "HUFF_TBLNO_CHECK_FIRST", "DIVISOR_CLAMP", "DIVISOR_CLAMPED_EVERYWHERE", "ZERO_QUANT_REJECTED",
           "NCOMP_CHECK_IN_VALIDATE", "REVALIDATE_AFTER_LOSSLESS", "MISSING_CODE_CHECK", "MISSING_ZRL_EOB_CHECK", "SIMD_RANGE_PRECHECK", "RESTART_CLAMP_DIRECT", "TJ_NUMSAMP", "TJ_NUMCS"]:
     out.append("Definition g_%s : Z := %d." % (k, consts[k]))
 out.append("\n(* zigzag order of encode_one_block: position 0 and the 63 kloop() arguments *)")
@@ -463,7 +486,8 @@ out.append("Definition g_kloop_order : list Z :=\n  [%s]." % "; ".join(map(str, 
 for nm in sorted(mcodes):
     out.append("Definition g_M_%s : Z := %d." % (nm, mcodes[nm]))
 for nm, l in (("g_std_luminance_quant_tbl", std_lum_q), ("g_std_dc_bits", std_dc_bits), ("g_std_dc_vals", std_dc_vals),
-              ("g_std_ac_bits", std_ac_bits), ("g_std_ac_vals", std_ac_vals)):
+              ("g_std_ac_bits", std_ac_bits), ("g_std_ac_vals", std_ac_vals), ("g_std_chrominance_quant_tbl", std_chr_q),
+              ("g_std_dcc_bits", std_dcc_bits), ("g_std_dcc_vals", std_dcc_vals), ("g_std_acc_bits", std_acc_bits), ("g_std_acc_vals", std_acc_vals)):
     out.append("Definition %s : list Z :=\n  [%s]." % (nm, "; ".join(map(str, l))))
 out.append("\n(* jpeg_simple_progression: the two scripts as calls (kind, a, b, c, d, e): 0 fill_dc_scans(Ah, Al), 1 fill_a_scan(ci, Ss, Se, Ah, Al), 2 fill_scans(Ss, Se, Ah, Al) *)")
 for nm, l in (("g_sp_ycc", sp_ycc), ("g_sp_gen", sp_gen)):
